@@ -546,3 +546,130 @@ fn kind_of(ty: &str) -> &'static str {
         "scalar"
     }
 }
+
+// ------------------------------------------------------------------------------------------ C07 (meaning)
+
+/// (expression text, expected: Some(pattern) = exactly one result matching; None = no result)
+fn dqe_table() -> Vec<(&'static str, Option<Value>)> {
+    let sc = |t: &str, v: &str| json!({"k":"scalar","t":t,"v":v});
+    let arr = |items: Vec<Value>| json!({"k":"array","items":items});
+    vec![
+        ("arr[0]", Some(sc("u16", "1"))),
+        ("arr[2]", Some(sc("u16", "3"))),
+        ("arr[3]", None),
+        ("arr[1..3]", Some(arr(vec![sc("u16", "2"), sc("u16", "3")]))),
+        ("arr[..2]", Some(arr(vec![sc("u16", "1"), sc("u16", "2")]))),
+        ("arr[1..]", Some(arr(vec![sc("u16", "2"), sc("u16", "3")]))),
+        ("arr[..]", Some(arr(vec![sc("u16", "1"), sc("u16", "2"), sc("u16", "3")]))),
+        ("arr[0..1]", Some(arr(vec![sc("u16", "1")]))),
+        ("arr2[1][0]", Some(sc("u8", "3"))),
+        ("arr2[0][1]", Some(sc("u8", "2"))),
+        ("arr2[1]", Some(arr(vec![sc("u8", "3"), sc("u8", "4")]))),
+        ("st.a", Some(sc("i32", "5"))),
+        ("st.b", Some(json!({"k":"scalar","t":"bool","v":true}))),
+        ("st_n.p.a", Some(sc("i32", "-1"))),
+        ("st_n.q", Some(sc("u8", "9"))),
+        // tuple members carry the names __0, __1 in the debug information
+        ("tup.__0", Some(sc("u8", "7"))),
+        ("tup.__1", Some(sc("i64", "-9"))),
+        ("tup_n.__0.__1", Some(sc("u16", "2"))),
+        ("st.nosuch", None),
+        ("tup.2", None),
+        ("*r64", Some(sc("u64", "77"))),
+        ("(*r64)", Some(sc("u64", "77"))),
+        ("*p64", Some(sc("u64", "77"))),
+        ("*&i8_min", Some(sc("i8", "-128"))),
+        ("*&arr[1]", Some(sc("u16", "2"))),
+        ("(*&arr)[2]", Some(sc("u16", "3"))),
+        ("*&st.a", Some(sc("i32", "5"))),
+        ("(*&st_n).p.b", Some(json!({"k":"scalar","t":"bool","v":false}))),
+        ("**&r64", Some(sc("u64", "77"))),
+        ("*i8_min", None),
+        ("i8_min.x", None),
+        ("i8_min[0]", None),
+        ("*pnull", None),
+        ("nosuchvar", None),
+        ("arr[1].x", None),
+    ]
+}
+
+pub fn part_c07_meaning(tier: Tier) -> Part {
+    let mut part = Part::new("dqe-meaning-core-values");
+    let table = dqe_table();
+    part.bounds = json!({"expressions": table.len(), "operators": "field, tuple field, index, all four slice forms, deref, address-of, and their compositions up to depth 3"});
+    part.rule = "data query expressions over the C06 panel of core-typed locals (array, nested array, struct, nested struct, tuples, reference, raw pointers, scalars): each text is parsed by the real parser and evaluated by read_variable; the result must be exactly the element / field / slice / pointee the documentation defines, or no result at all where the operator does not apply (out-of-range index, missing field, deref of a non-pointer or of null) - never a different value".into();
+    let _ = tier;
+    // reuse the C06 program
+    let vt = value_table();
+    let mut f = String::new();
+    f.push_str("#[derive(Clone, Copy)]\npub struct Pt {\n    a: i32,\n    b: bool,\n}\n#[derive(Clone, Copy)]\npub struct Outer {\n    p: Pt,\n    q: u8,\n}\n#[derive(Clone, Copy)]\npub enum Color {\n    Red,\n    Green,\n    Blue,\n}\n#[derive(Clone, Copy)]\npub enum Shape {\n    Circle(u32),\n    Rect { w: u16, h: u16 },\n    Empty,\n}\npub static G64: u64 = 77;\n#[inline(never)]\nfn vals(seed: u64) -> u64 {\n");
+    for (n, ty, init, _) in &vt {
+        f.push_str(&format!("    let {n}: {ty} = core::hint::black_box({init});\n"));
+    }
+    f.push_str("    let mut acc = seed;\n");
+    let stop_off = f.matches('\n').count() as u32 + 1;
+    f.push_str("    acc = acc.wrapping_add(1);\n");
+    for (n, _, _, _) in &vt {
+        f.push_str(&format!("    core::hint::black_box(&{n});\n"));
+    }
+    f.push_str("    acc\n}\n");
+    let mut prog = corpus::generate_custom("p_values", &f, "    a = a.wrapping_add(vals(a));");
+    let first = prog.lines.iter().find(|(_, m)| m == "custom.start").map(|(l, _)| *l).unwrap_or(1);
+    prog.lines.retain(|(_, m)| m != "custom.start");
+    let p = match corpus::build(&prog, &Config::default_cfg()).and_then(|b| prepare(vec![b])) {
+        Ok(mut v) => v.remove(0),
+        Err(e) => {
+            part.violate("C07:machinery:corpus", e, json!({}));
+            part.exhaustive = false;
+            return part;
+        }
+    };
+    let mut job = init_json(&p, false);
+    job["commands"] = json!([
+        {"op":"break_line","file":p.built.program.src_file,"line":first + stop_off - 1},
+        {"op":"start"},
+        {"op":"dqe","exprs":table.iter().map(|(e, _)| e.to_string()).collect::<Vec<_>>()},
+        {"op":"continue"}
+    ]);
+    let replay = json!({"engine":"c07-meaning"});
+    match run_worker("e2e", &job, Duration::from_secs(120)) {
+        WorkerOutcome::Ok(v) => {
+            let res = &v["obs"][2]["res"]["results"];
+            part.states = 1;
+            for (e, want) in &table {
+                part.evaluations += 1;
+                part.distinct_nontrivial += 1;
+                let r = &res[*e];
+                let got: Vec<Value> = r["ok"].as_array().cloned().unwrap_or_default();
+                match want {
+                    Some(pat) => {
+                        if r.get("parse_error").is_some() {
+                            part.violate("C07:meaning:documented-expression-rejected", format!("`{e}` does not parse"), replay.clone());
+                        } else if got.len() != 1 {
+                            part.violate(format!("C07:meaning:{}-results", got.len()), format!("`{e}` gave {} results ({}), expected one", got.len(), r), replay.clone());
+                        } else {
+                            let mut diffs = vec![];
+                            matches(pat, &got[0]["v"], e, &mut diffs);
+                            for d in diffs {
+                                let op = if e.contains("..") { "slice" } else if e.contains('[') { "index" } else if e.contains('*') { "deref" } else { "field" };
+                                part.violate(format!("C07:meaning:wrong-result:{op}"), format!("`{e}`: {d}"), replay.clone());
+                            }
+                        }
+                    }
+                    None => {
+                        // a value where the operator does not apply is a wrong answer
+                        let real: Vec<&Value> = got.iter().filter(|g| !(g["v"]["k"] == "scalar" && g["v"]["v"].is_null()) && !(g["v"]["k"] == "array" && g["v"]["items"].as_array().map(|a| a.is_empty()).unwrap_or(true))).collect();
+                        if !real.is_empty() {
+                            part.violate("C07:meaning:result-where-operator-does-not-apply", format!("`{e}` gave {}", json!(real)), replay.clone());
+                        }
+                    }
+                }
+            }
+            part.sample(json!({"expressions": table.iter().map(|(e, _)| *e).take(12).collect::<Vec<_>>()}));
+        }
+        o => part.violate("C07:debugger-crashed-or-hung", format!("{o:?}"), replay),
+    }
+    part.transitions = part.evaluations;
+    part.traces_validated = part.states;
+    part
+}
